@@ -177,6 +177,11 @@ class Check(object):
     def execute(self, case):
         raise NotImplementedError
 
+    batched = False
+
+    def execute_many(self, cases):
+        return [self.execute(c) for c in cases]
+
     def shrink_candidates(self, case):
         """yield smaller cases (generic: override)"""
         return iter(())
@@ -292,19 +297,35 @@ class _Stats(object):
 def _run_chunk(check, verif_seed, tier, indices, slot, progress):
     part = dict(runs=0, steps=0, nt=set(), all=set(), probes={}, faults={},
                 unspec={}, violations=[], harness=[], samples=[], variants={})
+    batched = getattr(check, 'batched', False)
+    cases = []
     for idx in indices:
-        struct.pack_into('<q', progress, slot * 8, idx)
         seed = derive(verif_seed, check.pid, tier, idx)
         rng = PRNG(seed)
         case = check.generate(rng, idx, tier)
         case.setdefault('run_index', idx)
         case.setdefault('run_seed', '0x%016x' % seed)
+        cases.append(case)
+    if batched:
+        struct.pack_into('<q', progress, slot * 8, -3)
         try:
-            out = check.execute(case)
+            outs = check.execute_many(cases)
         except HarnessError as e:
-            out = Outcome().harness('HarnessError: %s' % (e,))
+            outs = [Outcome().harness('HarnessError: %s' % (e,)) for _ in cases]
         except Exception:
-            out = Outcome().harness(traceback.format_exc())
+            tb = traceback.format_exc()
+            outs = [Outcome().harness(tb) for _ in cases]
+    for n, (idx, case) in enumerate(zip(indices, cases)):
+        if batched:
+            out = outs[n]
+        else:
+            struct.pack_into('<q', progress, slot * 8, idx)
+            try:
+                out = check.execute(case)
+            except HarnessError as e:
+                out = Outcome().harness('HarnessError: %s' % (e,))
+            except Exception:
+                out = Outcome().harness(traceback.format_exc())
         part['runs'] += 1
         part['steps'] += out.steps
         d = int(out.digest or '0', 16)
